@@ -7,6 +7,7 @@ import (
 	"fmt"
 	"math/rand"
 	"os"
+	"runtime"
 	"sort"
 	"time"
 
@@ -156,6 +157,97 @@ func (d *arpDriver) addr(a action) packet.Addr {
 
 // step executes one action; returns nil when the action does not apply in the current state.
 func (d *arpDriver) step(a action) (rec map[string]interface{}) {
+	rec = d.perform(a)
+	if rec != nil {
+		if _, bad := rec["panic"]; !bad {
+			d.observe(rec)
+		}
+	}
+	return rec
+}
+
+// overlap runs action `first` with its frame write held inside the connection, runs `second` to completion
+// meanwhile, then lets the held write finish (send-overlap stage: every pair of send paths of the handler).
+// Two ordinary trace lines result: first (with the frame as it finally left) and second.
+func (d *arpDriver) overlap(first, second action) []map[string]interface{} {
+	c := d.c
+	c.mu.Lock()
+	c.holdArmed, c.holding, c.holdRelease = true, false, make(chan struct{})
+	rel := c.holdRelease
+	c.mu.Unlock()
+	var recA map[string]interface{}
+	doneA := make(chan struct{})
+	go func() {
+		defer close(doneA)
+		recA = d.perform(first)
+	}()
+	holding := c.waitFor(time.Second, func() bool { return c.holding })
+	var recB map[string]interface{}
+	if holding {
+		recB = d.perform(second)
+	}
+	c.mu.Lock()
+	c.holdArmed = false
+	c.mu.Unlock()
+	e0 := c.nEvents()
+	close(rel)
+	<-doneA
+	if holding { // the held write completes now: wait until its frame is in the log
+		c.waitFor(time.Second, func() bool {
+			for _, e := range c.events[e0:] {
+				if e.kind == "frame" && e.b3 {
+					return true
+				}
+			}
+			return false
+		})
+		time.Sleep(200 * time.Microsecond)
+	}
+	if !holding { // the first action wrote nothing: plain sequence
+		recB = d.perform(second)
+	}
+	// attribute the frames: the held write belongs to the first action, everything else to the second
+	c.mu.Lock()
+	var fa, fb []vh.ArpFrame
+	var raw [][]byte
+	for _, e := range c.events[d.mark:] {
+		if e.kind == "frame" && e.epoch == c.epoch {
+			raw = append(raw, e.frame)
+			if e.b3 {
+				fa = append(fa, d.u.DecodeARP(e.frame))
+			} else {
+				fb = append(fb, d.u.DecodeARP(e.frame))
+			}
+		}
+	}
+	d.mark = len(c.events)
+	c.mu.Unlock()
+	d.tw.frames(raw)
+	out := []map[string]interface{}{}
+	if recA != nil {
+		if fa == nil {
+			fa = []vh.ArpFrame{}
+		}
+		recA["frames"] = fa
+		sec := map[string]interface{}{}
+		for k, v := range second {
+			sec[k] = v
+		}
+		recA["ovb"] = sec // lets the check rebuild the overlap when it re-executes this history
+		out = append(out, recA)
+	}
+	if recB != nil {
+		if fb == nil {
+			fb = []vh.ArpFrame{}
+		}
+		recB["frames"], recB["hunt"], recB["pcs"] = fb, d.huntList(), d.c.pcs()
+		out = append(out, recB)
+	}
+	return out
+}
+
+// perform executes one action without reading the observables; nil when the action does not apply.
+func (d *arpDriver) perform(a action) (rec map[string]interface{}) {
 	rec = map[string]interface{}{}
 	for k, v := range a {
 		rec[k] = v
@@ -192,6 +284,12 @@ func (d *arpDriver) step(a action) (rec map[string]interface{}) {
 		rec["n"], rec["errs"] = n, errs
 		time.Sleep(time.Millisecond) // every goroutine the calls spawned has announced itself by now
 		rec["spawned"] = d.settle(n0, isNew)
+	case "capture": // Session.Capture / Release: a per-MAC flag of the application, independent of the hunt list
+		if err := d.s.Capture(d.u.HuntMAC(a.s("mac"))); err != nil {
+			rec["cerr"] = err.Error()
+		}
+	case "release":
+		d.s.Release(d.u.HuntMAC(a.s("mac")))
 	case "stop":
 		d.h.StopHunt(d.addr(a))
 	case "close":
@@ -314,7 +412,6 @@ func (d *arpDriver) step(a action) (rec map[string]interface{}) {
 	default:
 		panic("unknown action " + a.s("a"))
 	}
-	d.observe(rec)
 	return rec
 }
 
@@ -354,8 +451,12 @@ func arpMain(args []string) {
 	script := fs.String("script", "", "ndjson action script")
 	outp := fs.String("out", "", "ndjson trace output")
 	framesOut := fs.String("frames", "", "write every emitted frame (hex, one per line)")
+	procs := fs.Int("procs", 0, "GOMAXPROCS for the run (1 for the send-overlap stage: sync.Pool then hands a returned buffer straight to the next sender)")
 	rtN := fs.Int("realtime", -1, "run one real-time scenario variant (genuine 6 s ticker) instead of a script")
 	fs.Parse(args)
+	if *procs > 0 {
+		runtime.GOMAXPROCS(*procs)
+	}
 	stdout := quiet()
 	d := &arpDriver{c: newCtl(), tw: newTraceWriter(*outp, *framesOut), rng: rand.New(rand.NewSource(seed()))}
 	d.install()
@@ -384,20 +485,25 @@ func arpMain(args []string) {
 		if skipping {
 			return
 		}
-		var rec map[string]interface{}
-		if a.s("a") == "step" {
-			rec = d.advance(a.i("k"))
-		} else {
-			rec = d.step(a)
+		var recs []map[string]interface{}
+		switch a.s("a") {
+		case "step":
+			recs = append(recs, d.advance(a.i("k")))
+		case "overlap":
+			recs = d.overlap(action(a["first"].(map[string]interface{})), action(a["second"].(map[string]interface{})))
+		default:
+			recs = append(recs, d.step(a))
 		}
-		if rec == nil {
-			return
-		}
-		d.tw.line(rec)
-		d.steps++
-		if _, bad := rec["panic"]; bad {
-			d.panics++
-			skipping = true
+		for _, rec := range recs {
+			if rec == nil {
+				continue
+			}
+			d.tw.line(rec)
+			d.steps++
+			if _, bad := rec["panic"]; bad {
+				d.panics++
+				skipping = true
+			}
 		}
 	})
 	if d.h != nil {
